@@ -214,6 +214,8 @@ def make_sets(scn):
         if td.kind != 'u':
             s = s - scn['amp'] // 2
         s = s.astype(td)
+        if scn.get('half'):
+            s = s + 0.5
         p = pt[:n].copy()
         if j == 0:
             p[0, :] = 255        # first batch decisive for automatic class sets (HW max) - DESIGN 4.3
@@ -295,7 +297,7 @@ def gen_base(prop, seed, tier):
                   (r.choice([[[0, 4], [3, 6], [10, 9]], [[0, 3], [2, 7]], [[0, 50], [4, 5], [6, 2]], [[0, 1], [100, 3]]]), 1.5)])
     scn = {'prop': prop, 'engine': 'pipeline', 'seed': seed, 'kind': kind, 'mode': mode, 'm': m, 'sets': sets, 'frame': frame, 'chain': chain,
            'words': words, 'rule': rule, 'precision': r.choice(['float32', 'float64']),
-           'tdtype': r.choice(['uint8', 'uint8', 'int16', 'float32'] if thorough else ['uint8']),
+           'tdtype': r.choice(['uint8', 'uint8', 'int16', 'float32', 'float64'] if thorough else ['uint8']),
            'amp': r.choice([3, 7, 15, 255]), 'table_seed': rng.H(seed, 'table'), 'nguess': r.choice([2, 3, 4]),
            'model': ['monobit', r.randint(0, 7)] if kind == 'dpa' else 'hw',
            'discriminant': r.choice(['maxabs', 'nanmax', 'abssum', 'nansum', 'opposite_min']),
@@ -304,11 +306,20 @@ def gen_base(prop, seed, tier):
         scn['classes'] = r.choice([None, list(range(9)), list(range(9)), [8, 7, 6, 5, 4, 3, 2, 1, 0], [0, 2, 4, 6, 8, 1], list(range(12))])
     if kind == 'mia':
         scn['mia'] = {'lo': 0, 'hi': r.choice([16, 64, 600]), 'bins': r.choice([3, 6])}
+        mr = rng.stream(seed, 'miawide')
+        if prop == 'C02' and mr.random() < 0.4:
+            # MIA bins the raw sample values and keeps counts in `precision` (any dtype; the standalone default is uint32): samples stored
+            # wider than the precision, with fractional values, must reach the histogram unchanged
+            scn['tdtype'] = 'float64'
+            scn['half'] = True
+            scn['precision'] = mr.choice(['float32', 'uint32', 'uint32', 'float64'])
     return scn, r
 
 
 def settle_exact(scn):
     """Lower amplitude / widen precision until every accumulator stays exact on the actual data."""
+    if scn['kind'] == 'mia':
+        return scn          # MIA accumulators are counts: exact for any sample values
     while True:
         sets = make_sets(scn)
         EE = np.concatenate([expected_matrix(scn, s) for s, p in sets])
@@ -556,11 +567,13 @@ def _execute(scn, scared):
             if rec.updates:
                 T = np.concatenate([u[0] for u in rec.updates])
                 D2 = np.concatenate([u[1] for u in rec.updates])
-                if not (compare.bitwise(T, EE)):
+                # values and shape are judged, not the storage dtype: an implementation may cast a batch before update() as long as the results
+                # (oracle 2) are those of the one-shot computation
+                if not (T.shape == EE.shape and np.array_equal(T, EE)):
                     violation = viol('traces_not_exactly_once_in_order', [prop, 'traces_not_exactly_once_in_order', scn['kind'], scn['mode']],
                                      'run %d: update() saw %s rows, expected %s; batch lengths %s' % (j, T.shape, EE.shape, [len(u[0]) for u in rec.updates]))
                     break
-                if not (compare.bitwise(D2, DD)):
+                if not (D2.shape == DD.shape and np.array_equal(D2, DD)):
                     violation = viol('data_not_own_metadata', [prop, 'data_not_own_metadata', scn['kind'], scn['mode']],
                                      'run %d: intermediate values passed to update() differ from model(sf(metadata)) of the same rows; shapes %s vs %s' % (j, D2.shape, DD.shape))
                     break
@@ -1048,6 +1061,8 @@ def precondition(scn):
         EE = np.concatenate([expected_matrix(scn, s) for s, p in sets])
     except Exception:
         return False
+    if scn['kind'] == 'mia':
+        return True
     y = 8.0
     prec = np.dtype(scn['precision'])
     lim = (1 << 24) if prec.itemsize == 4 else (1 << 53)
